@@ -34,7 +34,7 @@ fn request(op: &serde_json::Value, i: usize) -> Result<McpManagerRaftReq, String
                 .map(|t| McpSimpleTool {
                     tool_name: Arc::new("t".to_string()),
                     tool_key: tkey(),
-                    tool_version: if t.as_str().unwrap_or("").ends_with("v2") { 2 } else { 1 },
+                    tool_version: t.as_str().unwrap_or("").rsplit('v').next().and_then(|x| x.parse().ok()).unwrap_or(1),
                     route_rule: Default::default(),
                 })
                 .collect();
@@ -108,10 +108,31 @@ async fn observe(a: &Addr<McpManager>) -> Result<Vec<(String, String)>, String> 
     Ok(out)
 }
 
+/// the node restarts from the snapshot its MCP component wrote: real SnapshotWriterActor -> file -> real SnapshotReader -> fresh manager
+async fn through_snapshot(rep: &Addr<McpManager>) -> Result<Addr<McpManager>, String> {
+    use crate::raft::filestore::model::SnapshotHeaderDto;
+    use crate::raft::filestore::raftsnapshot::{SnapshotReader, SnapshotWriterActor, SnapshotWriterRequest};
+    let dir = tempfile::tempdir().unwrap();
+    let path = Arc::new(dir.path().join("mcp_snapshot").to_string_lossy().into_owned());
+    let header = SnapshotHeaderDto { last_index: 1, last_term: 1, member: vec![1], member_after_consensus: vec![], node_addrs: Default::default() };
+    let writer = SnapshotWriterActor::new(path.clone(), header).start();
+    rep.send(RaftApplyDataRequest::BuildSnapshot(writer.clone())).await.map_err(|e| format!("mailbox: {}", e))?.map_err(|e| format!("the MCP component cannot build its snapshot: {}", e))?;
+    for _ in 0..2 {
+        writer.send(SnapshotWriterRequest::Flush).await.map_err(|e| format!("mailbox: {}", e))?.map_err(|e| format!("flush: {}", e))?;
+    }
+    let fresh = McpManager::new().start();
+    let mut reader = SnapshotReader::init(&path).await.map_err(|e| format!("reader: {}", e))?;
+    while let Some(rec) = reader.read_record().await.map_err(|e| format!("read_record: {}", e))? {
+        fresh.send(RaftApplyDataRequest::LoadSnapshotRecord(rec)).await.map_err(|e| format!("mailbox: {}", e))?.map_err(|e| format!("the MCP component cannot load a record of its own snapshot: {}", e))?;
+    }
+    Ok(fresh)
+}
+
 async fn one(hist: &serde_json::Value, validate: bool) -> Result<(), Fail> {
     let live = McpManager::new().start();
-    let rep = McpManager::new().start();
+    let mut rep = McpManager::new().start();
     let ra = hist["restart_behind_request"].as_u64().unwrap_or(0) as usize;
+    let snap = hist["restart_from_snapshot"].as_bool().unwrap_or(false);
     for (i, op) in hist["ops"].as_array().cloned().unwrap_or_default().iter().enumerate() {
         let name = op["op"].as_str().unwrap_or("").to_string();
         let a = live.send(request(op, i).map_err(Fail::Model)?).await.map_err(|e| Fail::Model(format!("mailbox: {}", e)))?;
@@ -131,6 +152,9 @@ async fn one(hist: &serde_json::Value, validate: bool) -> Result<(), Fail> {
             )));
         }
         if i + 1 == ra {
+            if snap {
+                rep = through_snapshot(&rep).await.map_err(Fail::Model)?;
+            }
             let _ = rep.send(RaftApplyDataRequest::LoadCompleted).await;
         }
     }
@@ -139,8 +163,8 @@ async fn one(hist: &serde_json::Value, validate: bool) -> Result<(), Fail> {
     for ((q, x), (_, y)) in oa.iter().zip(ob.iter()) {
         if x != y {
             return Err(Fail::Property(format!(
-                "{}: the node that applied the log one by one answers {}, the node that restarted behind request {} (start-up replay, load-complete) answers {}",
-                q, x, ra, y
+                "{}: the node that applied the log one by one answers {}, the node that restarted behind request {} ({}) answers {}",
+                q, x, ra, if snap { "from the component's snapshot" } else { "start-up replay, load-complete" }, y
             )));
         }
     }
